@@ -86,6 +86,10 @@ func (r *Receiver) Receive(m Message, from uint16) {
 		if sender == r.SelfID {
 			return
 		}
+		// A sender cannot vouch for its own message
+		if sender == from {
+			return
+		}
 		r.Logger.Debugf("Got ack {sender: %d, digest: %s, round: %d} from %d",
 			sender, hex.EncodeToString(digest[:8]), msgRound, from)
 		r.registerMsg(msgReception{
